@@ -107,6 +107,33 @@ func init() {
 	}
 	// case folding / trimming: uninterpreted, with the axioms that matter for "relaxed comparison" variants:
 	// f(x) may equal f(y) for x != y (non-injective), so a relaxed comparison is distinguishable from ==.
+	// strings.TrimRight / TrimLeft with a constant single-character cutset
+	for _, side := range []string{"Right", "Left"} {
+		side := side
+		models["strings.Trim"+side] = func(in *Interp, fn *ssa.Function, a []Value) Value {
+			s, cs := termArg(in, a[0]), termArg(in, a[1])
+			if s.Const && cs.Const {
+				if side == "Right" {
+					return smt.StrLit(strings.TrimRight(s.Str, cs.Str))
+				}
+				return smt.StrLit(strings.TrimLeft(s.Str, cs.Str))
+			}
+			if !cs.Const || len(cs.Str) != 1 {
+				in.end("unmodelled", "strings.Trim%s with cutset %s at %s", side, cs.S, in.where())
+			}
+			in.X.noteAssumption("strings.TrimRight/TrimLeft(s, single character): s itself when s does not end/start with that character, otherwise an uninterpreted shorter string")
+			var has *smt.Term
+			if side == "Right" {
+				has = smt.StrSuffixOf(cs, s)
+			} else {
+				has = smt.StrPrefixOf(cs, s)
+			}
+			if in.Branch(has) {
+				return smt.UF("trim"+side+"_"+symName(cs.Str), []string{"String"}, &smt.Term{K: smt.KStr}, s)
+			}
+			return s
+		}
+	}
 	models["strings.ToLower"] = func(in *Interp, fn *ssa.Function, a []Value) Value {
 		s := termArg(in, a[0])
 		if s.Const {
